@@ -3,14 +3,14 @@
    positive stay the Coq datatypes.  No Extract Constant directive is used. *)
 Require Extraction.
 Require Import ExtrOcamlBasic.
-From XtModel Require Import Base InputModel Utf8 UtfModel TranscodeModel FormatsModel IoModel DetectModel CliModel MsgpackModel.
+From XtModel Require Import Base InputModel Utf8 UtfModel TranscodeModel FidelityModel FormatsModel IoModel DetectModel CliModel MsgpackModel.
 
 Extraction Language OCaml.
 Extraction "model.ml"
   run_reader run_slice
   utf8_valid utf8_encode is_scalar
   detect encoder_new encoder_from_reader read_seq
-  transcode
+  transcode value_roundtrip calls_of
   translate_history translate_history_w
   parse_args resolve_from extension_format run_cli
   next_value_size transcode_slice transcode_reader mm_output mm_ok msgpack_matches DEPTH_LIMIT.
